@@ -97,6 +97,11 @@ var checks = map[string]checkCfg{
 		Rule:        "each case fixes a server state (normal, read-only, per-operation rate limits exhausted, connection-level rate limit over a record-marking connection, policy drain established by parking a request on a backend gate while UpdatePolicyOptions waits) and issues 1-12 calls with program in {NFS, MOUNT, portmap number, 0, random}, version 0-4, procedure 0-23, arguments well-formed (live/stale/foreign handles, valid/invalid names), truncated at a 4-byte cut, random or over-long; non-trivial = some reply was not NFS3_OK/success, or the state is not normal; distinct = FNV-64 of the case JSON",
 		Assumptions: append([]string{"MOUNT v1 result bodies are not judged (only v3 is in the statement)"}, baseAssumptions...),
 		Phases:      []phase{rp("rapid", "^TestC14$", 6, 1200, 16, 15000)}},
+	"C15": {Level: "exploration", Technique: "rapid structured stream mutation + native fuzz against the record-marking connection loop; reply-stream invariant vs reference stream parser",
+		Rule:        "each case is a byte stream for one record-marking connection: 1-8 records, each a valid call of any program/procedure (or raw garbage) with 0-3 mutations (truncation, bit flip, a 4-byte word replaced by a hostile constant, appended bytes), an arbitrary fragmentation and framing games (missing last-fragment flag, lying fragment length, stray fragment headers); a reference parser decides which records a conformant server can decode; non-trivial = the stream holds >=1 decodable call and >=1 mutated/garbage record (every fuzz input counts); distinct = FNV-64 of the case JSON; thorough adds a native fuzz campaign seeded with valid calls and hostile constants",
+		Assumptions: append([]string{"a stream that simply ends inside a record does not oblige the server to close the connection before its read timeout; only complete undecodable records do", "allocation bound: 16 x bytes sent + records x (6 x 64 KiB + 64 KiB) + 8 MiB (TotalAlloc of the whole process)"}, baseAssumptions...),
+		Phases: []phase{rp("rapid", "^TestC15$", 8, 300, 16, 4000),
+			{Name: "fuzz", Variant: "plain", ThoroughOnly: true, Fuzz: "^FuzzC15$", FuzzSeconds: 240, ThoroughShards: 1}}},
 	"C02": {Level: "exploration", Technique: "rapid histories vs POSIX tree model + cached-vs-uncached differential",
 		Rule:        "cases are rapid-generated sequential histories of LOOKUP/CREATE/MKDIR/SYMLINK/REMOVE/RMDIR/RENAME/READDIR(PLUS)/GETATTR/READLINK over names {a,b,c} to depth 3, addressed through every handle ever issued (stale ones included); each history runs under the all-off baseline and k cached configurations (quick 3, thorough 6 of 15); non-trivial = a read-type request on a name or directory affected by an earlier successful mutation, executed under a configuration with at least one cache on; distinct = FNV-64 of the case JSON",
 		Assumptions: append([]string{"documented latitude L1-L7 of DESIGN.md §5 C02 (REMOVE of empty dir, UNCHECKED/EXCLUSIVE on existing objects, error code identity not compared against the model, path-bound handles)"}, baseAssumptions...),
